@@ -165,7 +165,8 @@ Definition acc_op (s : ast) (o : op) (evs : list ev) (r : obs) : option ast :=
                       | Some l' => Some (with_list s1 l')
                       end
                   end
-              | ObsNull => if try_ then Some s1 else None     (* a throwing function never returns null *)
+              | ObsNull => if try_ && negb (negb array && (0 <? l_nfree l0)) then Some s1 else None
+                  (* a throwing function never returns null; a try_ request for one node is refused only when the list is empty *)
               | ObsThrow => if try_ then None else Some s1    (* a try_ function never throws *)
               | _ => None
               end
